@@ -34,7 +34,7 @@ import (
 type Write struct {
 	Node int    `json:"node"`
 	Rep  int    `json:"rep"`
-	Kind string `json:"kind"` // ok | conflict | conflict_local | unavail | unavail_sent | notready | other
+	Kind string `json:"kind"` // ok | conflict | conflict_local | unavail | unavail_sent | notready | other | hang (the peer never answers: the forward timeout decides)
 }
 
 // FanoutInput scripts one remote-write request through a real receive.Handler.
@@ -170,38 +170,71 @@ type FanoutResult struct {
 	Hung              bool    `json:"hung,omitempty"` // the handler did not answer within 8s after the last response
 	Status            int     `json:"status"`
 	Body              string  `json:"body"`
-	DeliveredAtReturn int     `json:"delivered_at_return"` // responses released to the channel when the handler returned (>= consumed, <= consumed+1)
-	IDs               [][]int `json:"ids"`                 // series ids the handler attached to each write (in release order)
-	Order             []int   `json:"order"`               // indices into Writes in the order the responses were actually released
-	Responses         []int   `json:"responses"`           // number of responses each write produced (in Writes order)
+	DeliveredAtReturn int     `json:"delivered_at_return"`   // responses released to the channel when the handler returned (>= consumed, <= consumed+1)
+	IDs               [][]int `json:"ids"`                   // series ids the handler attached to each write (in release order)
+	Order             []int   `json:"order"`                 // indices into Writes in the order the responses were actually released
+	Responses         []int   `json:"responses"`             // number of responses each write produced (in Writes order)
+	HungWrites        []int   `json:"hung_writes,omitempty"` // indices into Writes of the peers that never answered
+	ForwardTimeoutMS  int64   `json:"forward_timeout_ms,omitempty"`
 }
 
 // RunFanout sends one remote-write request with len(in.Place) series through
 // receiveHTTP of a fresh Handler whose hashring and peers are scripted.
 func RunFanout(in *FanoutInput) (*FanoutResult, error) {
+	hasHang := false
+	for _, w := range in.Writes {
+		hasHang = hasHang || w.Kind == "hang"
+	}
+	if !hasHang {
+		res, _, err := runFanoutOnce(in, 5*time.Minute, false)
+		return res, err
+	}
+	// With hung peers the forward timeout ends the request. The scripted
+	// responses must all be consumed well before it fires (else which of
+	// "response" and "ctx.Done" the select takes is a race); a run in which the
+	// last response was delivered later than half the timeout is repeated with
+	// a four times longer timeout.
+	var lastErr error
+	for _, to := range []time.Duration{400 * time.Millisecond, 1600 * time.Millisecond, 6400 * time.Millisecond} {
+		res, valid, err := runFanoutOnce(in, to, true)
+		if err != nil {
+			lastErr = err
+			continue
+		}
+		if valid {
+			return res, nil
+		}
+	}
+	if lastErr != nil {
+		return nil, lastErr
+	}
+	return nil, fmt.Errorf("could not deliver the scripted responses within half of a 6.4s forward timeout")
+}
+
+func runFanoutOnce(in *FanoutInput, forwardTimeout time.Duration, hasHang bool) (*FanoutResult, bool, error) {
 	exp := in.ExpectedWrites()
 	if len(exp) != len(in.Writes) {
-		return nil, fmt.Errorf("input lists %d writes but the placement produces %d", len(in.Writes), len(exp))
+		return nil, false, fmt.Errorf("input lists %d writes but the placement produces %d", len(in.Writes), len(exp))
 	}
 	for _, w := range in.Writes {
 		if !exp[[2]int{w.Node, w.Rep}] {
-			return nil, fmt.Errorf("write (%d,%d) is not produced by the placement", w.Node, w.Rep)
+			return nil, false, fmt.Errorf("write (%d,%d) is not produced by the placement", w.Node, w.Rep)
 		}
 	}
 	for _, p := range in.Place {
 		if len(p) != in.RF {
-			return nil, fmt.Errorf("placement row of length %d, want rf=%d", len(p), in.RF)
+			return nil, false, fmt.Errorf("placement row of length %d, want rf=%d", len(p), in.RF)
 		}
 	}
 	limiter, err := receive.NewLimiter(nil, nil, receive.RouterIngestor, log.NewNopLogger(), time.Second)
 	if err != nil {
-		return nil, err
+		return nil, false, err
 	}
 	h := receive.NewHandler(log.NewNopLogger(), &receive.Options{
 		TenantHeader:      tenancy.DefaultTenantHeader,
 		ReplicaHeader:     receive.DefaultReplicaHeader,
 		ReplicationFactor: uint64(in.RF),
-		ForwardTimeout:    5 * time.Minute,
+		ForwardTimeout:    forwardTimeout,
 		Limiter:           limiter,
 		ReceiverMode:      receive.RouterIngestor,
 		Endpoint:          "self-not-in-ring",
@@ -225,11 +258,11 @@ func RunFanout(in *FanoutInput) (*FanoutResult, error) {
 	}
 	buf, err := proto.Marshal(wreq)
 	if err != nil {
-		return nil, err
+		return nil, false, err
 	}
 	req, err := http.NewRequest("POST", "http://receive/api/v1/receive", bytes.NewBuffer(snappy.Encode(nil, buf)))
 	if err != nil {
-		return nil, err
+		return nil, false, err
 	}
 	req.Header.Set(tenancy.DefaultTenantHeader, "t1")
 	if in.Replica != 0 {
@@ -239,6 +272,8 @@ func RunFanout(in *FanoutInput) (*FanoutResult, error) {
 	var returned atomic.Bool
 	var atReturn atomic.Int64
 	var panicked any
+	var retAt time.Time
+	start := time.Now()
 	done := make(chan struct{})
 	go func() {
 		defer close(done)
@@ -248,6 +283,7 @@ func RunFanout(in *FanoutInput) (*FanoutResult, error) {
 			}
 			sc.mu.Lock()
 			atReturn.Store(int64(sc.nreleased))
+			retAt = time.Now()
 			returned.Store(true)
 			sc.cond.Broadcast()
 			sc.mu.Unlock()
@@ -289,11 +325,22 @@ func RunFanout(in *FanoutInput) (*FanoutResult, error) {
 	if in.Workers == 0 {
 		// all writes parked (or the handler gave up before fanning out)
 		if !waitFor(func() bool { return len(sc.parked) == len(in.Writes) || returned.Load() }) {
-			return nil, fmt.Errorf("timeout waiting for %d forwarded writes (got %d)", len(in.Writes), len(sc.parked))
+			return nil, false, fmt.Errorf("timeout waiting for %d forwarded writes (got %d)", len(in.Writes), len(sc.parked))
 		}
 	}
 	releasedSet := map[int]bool{}
-	for k := 0; k < len(in.Writes); k++ {
+	nAnswer := 0
+	var hungIdx []int
+	for i, w := range in.Writes {
+		if w.Kind == "hang" {
+			hungIdx = append(hungIdx, i)
+			releasedSet[i] = true // never released by the script
+		} else {
+			nAnswer++
+		}
+	}
+	lastDelivery := start
+	for k := 0; k < nAnswer; k++ {
 		// next write in script order that has started; with a saturated pool a
 		// write may only start after an earlier one on the same peer finished
 		pick := -1
@@ -331,7 +378,7 @@ func RunFanout(in *FanoutInput) (*FanoutResult, error) {
 			if returned.Load() && none {
 				break // nothing was forwarded
 			}
-			return nil, fmt.Errorf("timeout: %d of %d writes never started", len(in.Writes)-k, len(in.Writes))
+			return nil, false, fmt.Errorf("timeout: %d of %d writes never started", nAnswer-k, len(in.Writes))
 		}
 		sc.mu.Lock()
 		ch := sc.parked[keyOf(in.Writes[pick])]
@@ -340,8 +387,9 @@ func RunFanout(in *FanoutInput) (*FanoutResult, error) {
 		order = append(order, pick)
 		ch <- kindErr(in.Writes[pick].Kind)
 		if !waitFor(func() bool { return sc.ndeliv >= k+1 }) {
-			return nil, fmt.Errorf("timeout waiting for delivery of response %d", k)
+			return nil, false, fmt.Errorf("timeout waiting for delivery of response %d", k)
 		}
+		lastDelivery = time.Now()
 		// let the fan-out loop consume this response before the next one is
 		// released (keeps DeliveredAtReturn tight; correctness does not depend on it)
 		for i := 0; i < 200 && !returned.Load(); i++ {
@@ -350,7 +398,12 @@ func RunFanout(in *FanoutInput) (*FanoutResult, error) {
 	}
 	select {
 	case <-done:
-	case <-time.After(8 * time.Second):
+	case <-time.After(8*time.Second + func() time.Duration {
+		if hasHang {
+			return forwardTimeout
+		}
+		return 0
+	}()):
 		// every forwarded write has responded, yet the request is not answered:
 		// reported to the caller as an observation (a failing case), not as a harness error
 		res := &FanoutResult{Hung: true, Order: order, DeliveredAtReturn: len(order)}
@@ -364,12 +417,12 @@ func RunFanout(in *FanoutInput) (*FanoutResult, error) {
 			res.Responses = append(res.Responses, sc.count[keyOf(w)])
 		}
 		sc.mu.Unlock()
-		return res, nil
+		return res, true, nil
 	}
 	if panicked != nil {
-		return nil, fmt.Errorf("handler panicked: %v", panicked)
+		return nil, false, fmt.Errorf("handler panicked: %v", panicked)
 	}
-	res := &FanoutResult{Status: rec.Code, Body: rec.Body.String(), DeliveredAtReturn: int(atReturn.Load()), Order: order}
+	res := &FanoutResult{Status: rec.Code, Body: rec.Body.String(), DeliveredAtReturn: int(atReturn.Load()), Order: order, HungWrites: hungIdx}
 	// every released write must have produced its response by now; give the
 	// asynchronous completion callbacks a moment and then count
 	waitFor(func() bool { return sc.ndeliv >= len(order) })
@@ -382,6 +435,20 @@ func RunFanout(in *FanoutInput) (*FanoutResult, error) {
 	for _, w := range in.Writes {
 		res.Responses = append(res.Responses, sc.count[keyOf(w)])
 	}
+	// let the hung peers go so that the handler's goroutines can finish
+	for _, i := range hungIdx {
+		if ch := sc.parked[keyOf(in.Writes[i])]; ch != nil {
+			ch <- errors.New("released by the harness after the request ended")
+		}
+	}
 	sc.mu.Unlock()
-	return res, nil
+	valid := true
+	if hasHang {
+		res.ForwardTimeoutMS = forwardTimeout.Milliseconds()
+		timedOut := retAt.Sub(start) >= forwardTimeout
+		if timedOut && lastDelivery.Sub(start) > forwardTimeout/2 {
+			valid = false
+		}
+	}
+	return res, valid, nil
 }
